@@ -298,12 +298,206 @@ Fixpoint first_bad {A} (f : A -> bool) (l : list A) (i : nat) : option nat :=
   match l with [] => None | x :: r => if f x then first_bad f r (S i) else Some i end.
 Definition jmonitor_first_bad (k : jcase) : option nat := first_bad (jstep_ok k) (jc_steps k) 0.
 
-(** * Cases of both kinds *)
-Inductive case := CNode (k : ncase) | CJob (k : jcase).
+(** * Queue accounting: the proportion plugin's books (third part)
 
-Definition model_agrees (c : case) : bool := match c with CNode k => nmodel_agrees k | CJob k => jmodel_agrees k end.
-Definition monitor_ok (c : case) : bool := match c with CNode k => nmonitor_ok k | CJob k => jmonitor_ok k end.
-Definition flags (c : case) : list nat := match c with CNode k => nflags k | CJob _ => [] end.
+    A queue case is ONE real session opened with the real proportion plugin (all default plugins) on a generated
+    cluster: queue forests of depth 1-3, pods in every status, whole-GPU / fraction / gpu-memory (one and several
+    devices) / cpu-only requests, nodes whose devices differ in memory.  At session open and after every real
+    Statement command / action the driver dumps, for EVERY queue, what the plugin believes - Allocated,
+    AllocatedNotPreemptible and Request of each of CPU, memory and GPU, read from the plugin's own
+    rs.QueueAttributes, the float64 values printed exactly (mantissa and exponent; +Inf / NaN tagged) - next to the
+    pods with their statuses and the nodes they are on, and Session.QueueAllocatedResources.
+
+    [qmonitor_ok] recomputes from scratch, in exact rational arithmetic:
+      allocated(q)   = sum over the pods of the jobs in q's subtree whose status holds resources
+                       (Allocated, Pipelined, Binding, Bound, Running) of what they hold: cpu, memory, and the GPU
+                       share  whole GPUs | devices x round(100 portion)/100 | gpu-memory: devices x
+                       ceil(100 MiB / device memory OF THE NODE THE POD IS ON)/100;
+      non-preemptible(q) = the same over non-preemptible jobs;
+      requested(q)   = fixed at session open: pods in Allocated / Binding / Bound / Running with what they hold +
+                       Pending pods with what they ask for, a gpu-memory request counting
+                       devices x MiB / ClusterInfo.MinNodeGPUMemory GPUs.
+    Believed = recomputed: exactly for CPU and memory, exactly for GPUs when every pod of the cluster asks for
+    whole GPUs or none, otherwise within [gpu_tol] = 10^-9 GPU (float64 sums of at most 2^12 updates of totals
+    below 2^10 GPUs are off by less than 2^12 * 2^10 * 2^-53 = 2^-31 < 10^-9; the driver's sessions are far
+    smaller).  +Inf and NaN are never equal to anything.  The getter is compared with ITS OWN rule applied to the
+    believed raw value (whole GPUs from 1 GPU on), so the known one-ulp drift of the float sum (known finding
+    C13-queue-usage-float-drift: 2 + 0.3 - 0.3 = 1.9999999999999998, the getter says 1) is inside the tolerance on
+    the raw value and consistent on the getter: it is not reported again here.  The recomputation charges a
+    multi-device gpu-memory pod devices x portion, i.e. what the handlers charge; that the capacity GATES look at
+    less (known finding C08-multidevice-gpu-memory) is not a statement about the books and does not show here. *)
+From Coq Require Import QArith Qreduction Qround.
+Open Scope Z_scope.
+
+Inductive fl := FNum (m e : Z) | FInf (neg : bool) | FNaN.     (* float64: m * 2^e *)
+Inductive gkind := GNone | GWhole (n : Z) | GFrac (hund ndev : Z) | GMem (mib ndev : Z).
+Record qpod := mkQP { qp_job : positive; qp_cpu : Z; qp_mem : Z; qp_g : gkind }.
+Record qjob := mkQJ { qj_queue : positive; qj_preempt : bool }.
+(** [cpu; memory; gpu] of Allocated, AllocatedNotPreemptible, Request; Session.QueueAllocatedResources *)
+Record qshare := mkQS { qs_alloc : list fl; qs_np : list fl; qs_req : list fl; qs_get : list fl }.
+Record qobs := mkQO { qo_pods : list (positive * (status * Z)); qo_queues : list (positive * qshare) }.
+Record qcase := mkQCase {
+  qc_minmem : Z;                    (* ClusterInfo.MinNodeGPUMemory *)
+  qc_nodes : list (Z * Z);          (* node -> MemoryOfEveryGpuOnNode *)
+  qc_parent : amap Z;               (* every queue -> its parent (0: none) *)
+  qc_jobs : amap qjob;
+  qc_pods : amap qpod;
+  qc_obs : list qobs;               (* the first one is taken right after session open *)
+}.
+
+Definition fl_q (f : fl) : option Q :=
+  match f with
+  | FNum m e => Some (if 0 <=? e then inject_Z (m * 2 ^ e) else Qred (Qmake m (Z.to_pos (2 ^ (- e)))))
+  | _ => None
+  end.
+
+Fixpoint qchain (fuel : nat) (par : amap Z) (q : Z) : list positive :=
+  match fuel with
+  | O => []
+  | S n => match q with
+           | Zpos p => match alookup p par with Some up => p :: qchain n par up | None => [] end
+           | _ => []
+           end
+  end.
+Definition q_in_subtree (k : qcase) (a : positive) (jq : positive) : bool :=
+  existsb (Pos.eqb a) (qchain (S (List.length (qc_parent k))) (qc_parent k) (Zpos jq)).
+
+Fixpoint zlookup (x : Z) (l : list (Z * Z)) : option Z :=
+  match l with [] => None | (y, v) :: r => if x =? y then Some v else zlookup x r end.
+
+Definition ceil_div (a b : Z) : Z := (a + b - 1) / b.
+(** GPUs a pod holds on [node] *)
+Definition g_held (k : qcase) (node : Z) (g : gkind) : Q :=
+  match g with
+  | GNone => 0%Q
+  | GWhole n => inject_Z n
+  | GFrac h d => Qred (Qmake (h * d) 100)
+  | GMem mib d => match zlookup node (qc_nodes k) with
+                  | Some M => if 0 <? M then Qred (Qmake (ceil_div (100 * mib) M * d) 100) else 0%Q
+                  | None => 0%Q
+                  end
+  end.
+(** GPUs a Pending pod asks for *)
+Definition g_pending (k : qcase) (g : gkind) : option Q :=
+  match g with
+  | GNone => Some 0%Q
+  | GWhole n => Some (inject_Z n)
+  | GFrac h d => Some (Qred (Qmake (h * d) 100))
+  | GMem mib d => if 0 <? qc_minmem k then Some (Qred (Qmake (d * mib) (Z.to_pos (qc_minmem k)))) else None
+  end.
+
+Definition q3 := (Q * Q * Q)%type.
+Definition q3_add (a b : q3) : q3 :=
+  let '(a1, a2, a3) := a in let '(b1, b2, b3) := b in (Qred (a1 + b1), Qred (a2 + b2), Qred (a3 + b3))%Q.
+Definition q3_zero : q3 := (0, 0, 0)%Q.
+
+(** what pod [e] of an observation adds to queue [a]: (allocated, non-preemptible) *)
+Definition held_part (k : qcase) (a : positive) (e : positive * (status * Z)) : option (q3 * q3) :=
+  match alookup (fst e) (qc_pods k) with
+  | None => None
+  | Some p =>
+      match alookup (qp_job p) (qc_jobs k) with
+      | None => None
+      | Some j =>
+          if active_allocated (fst (snd e)) && q_in_subtree k a (qj_queue j) then
+            let x := (inject_Z (qp_cpu p), inject_Z (qp_mem p), g_held k (snd (snd e)) (qp_g p)) in
+            Some (x, if qj_preempt j then q3_zero else x)
+          else Some (q3_zero, q3_zero)
+      end
+  end.
+(** what it adds to Request at session open *)
+Definition req_part (k : qcase) (a : positive) (e : positive * (status * Z)) : option q3 :=
+  match alookup (fst e) (qc_pods k) with
+  | None => None
+  | Some p =>
+      match alookup (qp_job p) (qc_jobs k) with
+      | None => None
+      | Some j =>
+          if negb (q_in_subtree k a (qj_queue j)) then Some q3_zero
+          else if allocated_status (fst (snd e)) then
+            Some (inject_Z (qp_cpu p), inject_Z (qp_mem p), g_held k (snd (snd e)) (qp_g p))
+          else if status_eqb (fst (snd e)) Pending then
+            match g_pending k (qp_g p) with
+            | Some g => Some (inject_Z (qp_cpu p), inject_Z (qp_mem p), g)
+            | None => None
+            end
+          else Some q3_zero
+      end
+  end.
+
+Fixpoint sum_opt {A B} (f : A -> option B) (add : B -> B -> B) (z : B) (l : list A) : option B :=
+  match l with
+  | [] => Some z
+  | x :: r => match f x, sum_opt f add z r with Some v, Some acc => Some (add v acc) | _, _ => None end
+  end.
+Definition pair_add (a b : q3 * q3) : q3 * q3 := (q3_add (fst a) (fst b), q3_add (snd a) (snd b)).
+
+Definition gpu_tol : Q := (1 # 1000000000)%Q.
+Definition whole_only (k : qcase) : bool :=
+  forallb (fun kv => match qp_g (snd kv) with GNone | GWhole _ => true | _ => false end) (qc_pods k).
+Definition q_close (tol : Q) (believed : fl) (truth : Q) : bool :=
+  match fl_q believed with
+  | Some b => Qle_bool (Qred (b - truth)) tol && Qle_bool (Qred (truth - b)) tol
+  | None => false
+  end.
+Definition q3_close (k : qcase) (bs : list fl) (t : q3) : bool :=
+  let '(c, m, g) := t in
+  match bs with
+  | [bc; bm; bg] => q_close 0 bc c && q_close 0 bm m && q_close (if whole_only k then 0%Q else gpu_tol) bg g
+  | _ => false
+  end.
+
+(** the getter's own rule: NewResourceRequirements(gpus, cpu, memory).GPUs() is the whole part from 1 GPU on, 0 up
+    to 0, and the nearest hundredth in between (compared as the number of hundredths: 0.7 is not a float) *)
+Definition hundredths (x : Q) : Z := Qfloor (x * 100 + (1 # 2))%Q.
+Definition getter_gpu_ok (raw got : Q) : bool :=
+  if Qle_bool 1 raw then Qeq_bool got (inject_Z (Qfloor raw))
+  else if Qle_bool raw 0 then Qeq_bool got 0
+  else (hundredths got =? hundredths raw) && q_close gpu_tol (FNum (hundredths raw) 0) (got * 100)%Q.
+Definition getter_ok (sh : qshare) : bool :=
+  match qs_alloc sh, qs_get sh with
+  | [ac; am; ag], [gc; gm; gg] =>
+      match fl_q ac, fl_q am, fl_q ag, fl_q gc, fl_q gm, fl_q gg with
+      | Some ac, Some am, Some ag, Some gc, Some gm, Some gg =>
+          Qeq_bool ac gc && Qeq_bool am gm && getter_gpu_ok ag gg
+      | _, _, _, _, _, _ => false
+      end
+  | _, _ => false
+  end.
+
+Definition qqueue_ok (k : qcase) (open_pods pods : list (positive * (status * Z))) (qsh : positive * qshare) : bool :=
+  let a := fst qsh in
+  match sum_opt (held_part k a) pair_add (q3_zero, q3_zero) pods, sum_opt (req_part k a) q3_add q3_zero open_pods with
+  | Some (al, np), Some rq =>
+      q3_close k (qs_alloc (snd qsh)) al && q3_close k (qs_np (snd qsh)) np && q3_close k (qs_req (snd qsh)) rq
+      && getter_ok (snd qsh)
+  | _, _ => false
+  end.
+
+Definition qobs_ok (k : qcase) (open_pods : list (positive * (status * Z))) (o : qobs) : bool :=
+  list_eqb Pos.eqb (map fst (qo_queues o)) (map fst (qc_parent k))
+  && forallb (qqueue_ok k open_pods (qo_pods o)) (qo_queues o).
+
+Definition qmonitor_ok (k : qcase) : bool :=
+  match qc_obs k with
+  | [] => false
+  | o :: _ => forallb (qobs_ok k (qo_pods o)) (qc_obs k)
+  end.
+Definition qmonitor_first_bad (k : qcase) : option nat :=
+  match qc_obs k with [] => None | o :: _ => first_bad (qobs_ok k (qo_pods o)) (qc_obs k) 0 end.
+(** the queues the monitor rejects at observation [i] *)
+Definition qmonitor_bad_queues (k : qcase) (i : nat) : list positive :=
+  match qc_obs k, nth_error (qc_obs k) i with
+  | o0 :: _, Some o => map fst (filter (fun x => negb (qqueue_ok k (qo_pods o0) (qo_pods o) x)) (qo_queues o))
+  | _, _ => []
+  end.
+
+(** * Cases of the three kinds *)
+Inductive case := CNode (k : ncase) | CJob (k : jcase) | CQueue (k : qcase).
+
+Definition model_agrees (c : case) : bool := match c with CNode k => nmodel_agrees k | CJob k => jmodel_agrees k | CQueue _ => true end.
+Definition monitor_ok (c : case) : bool := match c with CNode k => nmonitor_ok k | CJob k => jmonitor_ok k | CQueue k => qmonitor_ok k end.
+Definition flags (c : case) : list nat := match c with CNode k => nflags k | CJob _ => [] | CQueue _ => [] end.
 Definition run_flags (cs : list (nat * case)) : list (nat * list nat) :=
   filter (fun p => negb (Nat.eqb (List.length (snd p)) 0)) (map (fun c => (fst c, flags (snd c))) cs).
 
